@@ -296,7 +296,29 @@ def write_evidence(prop, evidence, lines, summary):
     print(summary)
 
 
-def run_seq_check(prop, tier, flags, plan, seed, design_ref, extra_assumptions=None, write=True, clear_replays=True):
+def run_fuzz(work, harness, n, seed, ill):
+    """impl -> spec beyond the enumerated groups: random pipelines (depth 2..5 over the whole sequential operator table) with
+    adaptively chosen stimuli are executed on the real crate; every trace goes to TLC."""
+    procs = []
+    for k in range(NPROC):
+        cmd = [harness, 'seq-fuzz', '--n', str(n), '--seed', str(seed), '--shard', str(k), '--of', str(NPROC), '--out', '%s/fuzz.fz%d.ndjson' % (work, k)]
+        if ill:
+            cmd.append('--ill')
+        procs.append(subprocess.Popen(cmd, stdout=subprocess.PIPE, stderr=subprocess.PIPE, text=True))
+    tot = {'cases': 0, 'nontrivial': 0, 'ops': {}}
+    for p in procs:
+        out, err = p.communicate()
+        if p.returncode != 0:
+            raise ToolError('harness seq-fuzz failed: ' + err[-2000:])
+        v = json.loads(out.strip().splitlines()[-1])
+        tot['cases'] += v['cases']
+        tot['nontrivial'] += v['nontrivial']
+        for o, c in v['ops'].items():
+            tot['ops'][o] = tot['ops'].get(o, 0) + c
+    return tot
+
+
+def run_seq_check(prop, tier, flags, plan, seed, design_ref, extra_assumptions=None, write=True, clear_replays=True, fuzz=0, fuzz_ill=False):
     """plan: list of (group, maxstim, revs).  flags: the monitor flags of RxProps.Judge that decide `prop`."""
     t0 = time.time()
     harness = build_harness()
@@ -330,8 +352,9 @@ def run_seq_check(prop, tier, flags, plan, seed, design_ref, extra_assumptions=N
                     for d in s['diffs']:
                         d['tag'] = tag
                         diffs.append(d)
-        # ---- impl -> spec: TLC judges recorded executions: all disagreeing ones, the model-rejected ones, and a sample
-        tv_files = [work + '/' + f for f in os.listdir(work) if re.search(r'\.(diff|bad|sample)\d+\.ndjson$', f)]
+        fz = run_fuzz(work, harness, fuzz, seed, fuzz_ill) if fuzz else None
+        # ---- impl -> spec: TLC judges recorded executions: all disagreeing ones, the model-rejected ones, a sample, and the random pipelines
+        tv_files = [work + '/' + f for f in os.listdir(work) if re.search(r'\.(diff|bad|sample|fz)\d+\.ndjson$', f)]
         verdicts = validate_traces(work, tv_files, 'all')
         traces = read_traces(tv_files)
         out_lines = []
@@ -411,6 +434,7 @@ def run_seq_check(prop, tier, flags, plan, seed, design_ref, extra_assumptions=N
                 'cases_agreeing_with_L1_model': tot['agree'], 'cases_differing_from_L1_model': tot['differ'],
                 'predicted_stuck_or_budget_verdicts_confirmed': tot['nonok_confirmed'],
                 'operators_exercised': ops, 'monitors': flags,
+                'random_pipelines': fz,
                 'l2_rejections_known': {k: c[0] for k, c in kf_hits.items()}, 'l2_rejections_new': len(violations), 'new_violation_classes': vsum, 'model_drift_traces': drift,
             },
             'assumptions': ['bounded: histories of at most max_stimuli stimuli, items from {0,1,2}, parameters as listed in spec/RxSeqMC.tla',
